@@ -707,6 +707,123 @@ func intrBlankBetween(in *interp, fr *frame, fn *ssa.Function, args []value) val
 	return boolVal(tInRe(sub, "(re.* "+reClass(" \\t")+")"))
 }
 
+// lexSubSlice models LexConfig on file[off:off+n] with an arbitrary start position (assumption
+// A-LEX-SUB): the slice must start inside the blank run before a seed token (or at the token) and
+// end after a seed token (blanks or inserted lines may follow); the seed tokens in between are
+// returned, positioned as a lexer that counts from the given start position would position them.
+// That the tokens of the piece do not depend on their context is checked natively on the seed.
+func (in *interp) lexSubSlice(st *stretchState, sb *symBytes, start structure) value {
+	off, n := sb.off, sb.n
+	end := tAdd(off, n)
+	L0, C0, B0 := intTerm(start[0]), intTerm(start[1]), intTerm(start[2])
+	type anchor struct{ lo, at *term }
+	anchors := make([]anchor, len(st.toks))
+	prevEnd := hcl.InitialPos
+	for i, t := range st.toks {
+		_, _, at := st.image(t.Range.Start)
+		// the blank run before the token: seed blanks plus the gap's extra blanks
+		run := mkInt(int64(t.Range.Start.Byte - prevEnd.Byte))
+		for _, g := range st.gaps {
+			if g.end == t.Range.Start.Byte {
+				run = tAdd(run, g.delta)
+			}
+		}
+		anchors[i] = anchor{tSub(at, run), at}
+		prevEnd = t.Range.End
+	}
+	first := -1
+	for i := range st.toks {
+		if in.branch(tAnd(tCmp("<=", anchors[i].lo, off), tCmp("<=", off, anchors[i].at)), "lex-sub-start") {
+			first = i
+			break
+		}
+	}
+	if first < 0 {
+		panic(unsupported("LexConfig on a sub-slice that starts inside a token"))
+	}
+	last := -1 // index one past the last included token
+	for e := first; e < len(st.toks); e++ {
+		lo := mkInt(0)
+		if e > 0 {
+			_, _, lo = st.imageE(st.toks[e-1].Range.End, true)
+		}
+		if in.branch(tAnd(tCmp("<=", lo, end), tCmp("<=", end, anchors[e].at)), "lex-sub-end") {
+			last = e
+			break
+		}
+	}
+	if last < 0 {
+		if in.branch(tEq(end, st.total), "lex-sub-end-eof") {
+			last = len(st.toks) - 1
+		} else {
+			panic(unsupported("LexConfig on a sub-slice that ends inside a token"))
+		}
+	}
+	// context independence, on the seed
+	if last > first {
+		s0, e0 := st.toks[first].Range.Start, st.toks[last-1].Range.End
+		nat, _ := hclsyntax.LexConfig([]byte(st.src[s0.Byte:e0.Byte]), st.filename, s0)
+		same := len(nat) == last-first+1 // plus EOF
+		for k := 0; same && k < last-first; k++ {
+			a, b := nat[k], st.toks[first+k]
+			same = a.Type == b.Type && a.Range.Start == b.Range.Start && a.Range.End == b.Range.End
+		}
+		if !same {
+			panic(unsupported("LexConfig on a sub-slice: the piece lexes differently out of context"))
+		}
+	}
+	in.p.note("stub:LexConfig(A-LEX-SUB)")
+	fl, fc, fb := st.image(st.toks[first].Range.Start)
+	lead := tSub(fb, off) // blanks between the slice start and the first token
+	conv := func(pos hcl.Pos, isEnd bool) (l, c, b *term) {
+		il, ic, ib := st.imageE(pos, isEnd)
+		l = tAdd(L0, tSub(il, fl))
+		if pos.Line == st.toks[first].Range.Start.Line {
+			c = tAdd(tAdd(C0, lead), tSub(ic, fc))
+		} else {
+			c = ic
+		}
+		b = tAdd(B0, tSub(ib, off))
+		return
+	}
+	toks := make([]value, 0, last-first+1)
+	var ll, lc, lb *term = L0, C0, B0
+	lastEndByte := off
+	for i := first; i < last; i++ {
+		t := st.toks[i]
+		sl, sc, sbb := conv(t.Range.Start, false)
+		var el, ec, eb *term
+		if t.Range.End.Byte == t.Range.Start.Byte {
+			el, ec, eb = sl, sc, sbb
+		} else {
+			nb := t.Range.End.Byte - t.Range.Start.Byte
+			dl := t.Range.End.Line - t.Range.Start.Line
+			eb = tAdd(sbb, mkInt(int64(nb)))
+			if dl == 0 {
+				el, ec = sl, tAdd(sc, mkInt(int64(t.Range.End.Column-t.Range.Start.Column)))
+			} else {
+				el, ec = tAdd(sl, mkInt(int64(dl))), mkInt(int64(t.Range.End.Column))
+			}
+		}
+		_, _, ib := st.image(t.Range.Start)
+		tb := &symBytes{buf: st.buf, off: ib, n: mkInt(int64(len(t.Bytes))), c: tSub(st.total, ib)}
+		rng := structure{st.filename, in.posValue(sl, sc, sbb), in.posValue(el, ec, eb)}
+		toks = append(toks, structure{int32(t.Type), tb, rng})
+		ll, lc, lb = el, ec, eb
+		lastEndByte = tAdd(ib, mkInt(int64(t.Range.End.Byte-t.Range.Start.Byte)))
+	}
+	// the end-of-input token: after the blanks that follow the last token
+	trail := tSub(end, lastEndByte)
+	if last == first {
+		trail = n
+	}
+	eofPos := in.posValue(ll, tAdd(lc, trail), tAdd(lb, trail))
+	tb := &symBytes{buf: st.buf, off: end, n: mkInt(0), c: tSub(st.total, end)}
+	toks = append(toks, structure{int32(hclsyntax.TokenEOF), tb, structure{st.filename, eofPos, eofPos}})
+	var diags value = []value(nil)
+	return tuple{toks, diags}
+}
+
 // LexConfig on the stretched file returns the seed's tokens under the stretch map (assumption A-LEX).
 func stubLexConfig(in *interp, fr *frame, fn *ssa.Function, args []value) value {
 	sb, ok := args[0].(*symBytes)
@@ -714,7 +831,7 @@ func stubLexConfig(in *interp, fr *frame, fn *ssa.Function, args []value) value 
 		for _, st := range in.stretchStates() {
 			if st.buf == sb.buf && !st.json {
 				if !(sb.off.isConst() && sb.off.i == 0 && sb.n == st.total) {
-					panic(unsupported("LexConfig on a sub-slice of the stretched file"))
+					return in.lexSubSlice(st, sb, args[2].(structure))
 				}
 				in.p.note("stub:LexConfig(A-LEX)")
 				toks := make([]value, len(st.toks))
